@@ -581,7 +581,12 @@ class FnTranslator:
             if refmut: self.mut_params.append(pat[1])
         self.params_pre = params
         for mp in self.mut_params:
-            if env[mp][0] == "opaque": raise RsError("&mut parameter of an opaque type is outside the subset")
+            # (round 9) a `&mut` parameter of an opaque type is returned like every other `&mut` parameter; the only things
+            # that can be done with it are: move/assign it, hand it on as `&mut`, and call methods declared under
+            # `externals` -- a method that changes it must be declared `"updates": true` (see `call_updating`).  Without
+            # any declared method on the type the old refusal stays (nothing could be said about what happens to it).
+            if env[mp][0] == "opaque" and not any(k.startswith(env[mp][1] + ".") for k in u.externals):
+                raise RsError("&mut parameter of an opaque type is outside the subset (no method of %s is declared external)" % env[mp][1])
         self.ret = u.resolve(f["ret"], self.impl)
         self.is_result = self.ret[0] == "result"
         self.val_ty = self.ret[1] if self.is_result else self.ret
@@ -895,6 +900,7 @@ class FnTranslator:
             info = self.u.fns.get((impl, e[2]))
             if info is not None and info.mut_self: return True     # also `&self` methods that mutate through a lock
             return mut_recv(self.u.fi.fns.get((impl, e[2])), (impl, e[2]))
+        if any(k.endswith("." + e[2]) and v.get("updates") for k, v in self.u.externals.items()): return True
         if e[1] == ("path", ["self"]): return False
         # any other receiver (field, alias, local of a struct type of this file): by name, conservatively
         return any(mut_recv(k, (im, nm)) for (im, nm), k in self.u.fi.fns.items() if nm == e[2])
@@ -2608,6 +2614,45 @@ class FnTranslator:
         if not terms: return ident, rt, "val"
         return "(%s %s)" % (ident, " ".join(terms)), rt, "val"
 
+    def call_updating(self, name, recv, args, env, pre, wr):
+        """(round 9) call of a method declared `"Type.m": {"params": [..], "ret": R, "updates": true}` on a *place* of the
+        opaque (or imported struct) type `Type`: the external is a function `Type → args → Type × R` (`Type` alone for
+        `R = ()`; `Rs.M (…)` for a declared `Result<R, _>` -- then, as for translated `&mut self` methods, only under `?`
+        or in tail position -- and for `"partial": true`); the new value is stored back into the receiver place, which
+        must be assignable (a `&mut` parameter, a `let mut` local, a field of a state-updating `self`).  The state after
+        an `Err` is not modelled (the monad carries no state): exactly the treatment of translated `&mut self` methods."""
+        spec = self.u.externals[name]
+        pts = [self.u.parse_type(x, self.impl) for x in spec["params"]]
+        rt = self.u.parse_type(spec["ret"], self.impl)
+        rterm, rty = self.expr(recv, env, pre, None)
+        if len(pts) == len(args) + 1:
+            self.check_ty(rty, pts[0], "receiver of external %s" % name); pts = pts[1:]
+        if len(pts) != len(args): raise RsError("external %s arity" % name)
+        terms = [self.paren(rterm)]
+        for a, pt in zip(args, pts):
+            term, t = self.expr(a, env, pre, pt)
+            self.check_ty(t, pt, "argument of external %s" % name)
+            terms.append(self.paren(term))
+        is_res = rt[0] == "result"
+        val = rt[1] if is_res else rt
+        out = rty if val == UNIT else ("tuple", [rty, val])
+        mon = is_res or spec.get("partial") or spec.get("may_panic")
+        lty = LazyTy(self.u, [rty] + pts, out, "Rs.M" if mon else None)
+        ident = "ext_" + re.sub(r"\W+", "_", name)
+        ops = []
+        for t in [rty] + pts + [val]: self.u.opaques_of(t, ops)
+        self.add_ext(ident, lty, ops)
+        if is_res and not (wr and self.is_result):
+            raise RsError("Result of the state-updating external %s used other than by `?` or in tail position" % name)
+        s_, r_ = self.fresh("s"), None
+        patt = s_
+        if val != UNIT:
+            r_ = self.fresh("r"); patt = "(%s, %s)" % (s_, r_)
+        call = "%s %s" % (ident, " ".join(terms))
+        pre.append(("bind", patt, MCall(call)) if mon else ("let", patt, call))
+        self.place_set(recv, s_, env, pre)
+        return (r_ if r_ is not None else "()"), val, ("tried" if is_res else "val")
+
     def mcall(self, e, env, pre, want):
         _, recv, m, turbo, args, line = e
         wr = getattr(self, "wr_of", {}).get(id(e), False)
@@ -2653,6 +2698,16 @@ class FnTranslator:
         if recv[0] == "path" and len(recv[1]) == 1 and recv[1][0] not in env and recv[1][0] != "self" \
                 and self.u.const_value(recv[1][0], self.local_consts) is None:
             raise RsError("method call on unknown %s" % recv[1][0])
+        if any(k.endswith("." + m) and v.get("updates") for k, v in self.u.externals.items()):
+            # (round 9) a declared *state-updating* external method `Type.m` (`"updates": true`): the receiver is a place
+            pre0, n0 = [], self.n
+            try:
+                _, ut0 = self.expr(recv, env, pre0, None)
+            except RsError:
+                ut0 = ("unknown",)
+            self.n = n0
+            if ut0[0] in ("struct", "opaque") and self.u.externals.get("%s.%s" % (ut0[1], m), {}).get("updates"):
+                return self.call_updating("%s.%s" % (ut0[1], m), recv, args, env, pre, wr)
         if recv[0] == "path" and len(recv[1]) == 1 and recv[1][0] in env and env[recv[1][0]][0] in ("struct", "opaque") \
                 and "%s.%s" % (env[recv[1][0]][1], m) in self.u.externals:
             # a method declared external in the target list: `ext_<Type>_<method> : Type → args → ret`
